@@ -182,7 +182,7 @@ def judge(case):
     if case.get("kind") == "custom-zone":
         return judge_custom_zone(case, provider)
     fails = []
-    for section in (_traversal, _traversal_after_edits, _traversal_parsed, _equality, _non_components, _perturbation, _copies):
+    for section in (_traversal, _shared_instance, _traversal_after_edits, _traversal_parsed, _equality, _non_components, _perturbation, _copies):
         try:
             section(case, provider)
         except Bad as b:
@@ -224,6 +224,24 @@ def _traversal(case, provider):
             got = getattr(a, attr)
             if len(got) != len(want) or any(x is not y for x, y in zip(got, want)):
                 raise Bad("C20.accessors", f"accessor-{attr}-differs", f"{len(got)} vs {len(want)}")
+
+
+def _shared_instance(case, provider):
+    """one component OBJECT placed at two places of the tree (the same Alarm added to two events, an event added twice): the tree has
+    a node at each place, and every traversal returns each of them"""
+    pre = []
+    a = T.build(case["tree"], provider, into=pre)
+    if len(pre) < 2:
+        return
+    k = (case.get("perm") or [0])
+    child = pre[1 + k[0] % (len(pre) - 1)]
+    inside = {id(x) for x in _own_preorder(child)}
+    targets = [c for c in pre if id(c) not in inside]
+    target = targets[k[-1] % len(targets)]
+    target.add_component(child)
+    _check_accessors(a, "one-object-at-two-places")
+    if a.to_ical().count(b"BEGIN:") != len(_own_preorder(a)):
+        raise Bad("C20.walk", "serialisation-and-traversal-disagree/one-object-at-two-places", "")
 
 
 def _own_preorder(comp):
